@@ -237,6 +237,10 @@ func runC18(c *fw.Ctx, cs fw.Case) {
 	r := cs.Rand()
 	ctx := context.Background()
 	switch cs.Kind {
+	case "api":
+		for i := 0; i < cs.N; i++ {
+			engineAPI(c, r, cs.Idx*1000+i)
+		}
 	case "repeat":
 		for i := 0; i < cs.N; i++ {
 			h, depth := c18Root(r, i+cs.Idx)
@@ -593,9 +597,9 @@ func init() {
 	fw.Register(&fw.Monitor{
 		ID:          "C18",
 		Level:       "exploration",
-		RaceKinds:   map[string]bool{"concurrent": true, "engines": true},
+		RaceKinds:   map[string]bool{"concurrent": true, "engines": true, "api": true},
 		Technique:   "runtime differential monitor: the same search repeated cold / after unrelated searches / with other hash seeds / alongside 4-11 concurrently searching engines (race detector on) must give identical (score, PV, nodes); engine game snapshot before/after analysis",
-		Rule:        "direct searches: generated roots x 10 configurations, repeated after unrelated searches on the same search object and on boards with other zobrist seeds; engines: the four bundled recipes through Engine.Reset/Move/Analyze to a depth limit: PV stream (depth, score, moves, nodes per iteration) compared across repetition, hash seed, equal-seed noise, fresh tables; concurrent: probe engine alone vs. alongside other engines in the same process under the race detector; Position() and board snapshot before/after Analyze..Halt; distinct = distinct (configuration/engine, depth, history)",
+		Rule:        "direct searches: generated roots x 10 configurations, repeated after unrelated searches on the same search object and on boards with other zobrist seeds; engines: the four bundled recipes through Engine.Reset/Move/Analyze to a depth limit: PV stream (depth, score, moves, nodes per iteration) compared across repetition, hash seed, equal-seed noise, fresh tables; concurrent: probe engine alone vs. alongside other engines in the same process under the race detector; Position() and board snapshot before/after Analyze..Halt; api: random sequences of the engine's public calls (Move legal/illegal, TakeBack, Reset to another game / the same game / the live FEN, Analyze limited/unlimited, Halt, option setters, Board() forks played on by a user) with the reported FEN and the full snapshot compared with a reference game after every call (race build); distinct = distinct (configuration/engine, depth, history)",
 		Assumptions: []string{"noise off and no table carried over, as the property states; with a fresh table only equal-seed engines are compared on node counts"},
 		Setup:       validateOracle,
 		Timeout:     minutes(15, 120),
@@ -604,10 +608,11 @@ func init() {
 			l = mkCases(l, "engines", 16, seed, pick(tier, 6, 120))
 			l = mkCases(l, "concurrent", 8, seed, pick(tier, 3, 60))
 			l = mkCases(l, "binary", 8, seed, pick(tier, 3, 60))
+			l = mkCases(l, "api", 16, seed, pick(tier, 8, 250))
 			return l
 		},
 		Floors: func(string) map[string]int64 {
-			return map[string]int64{"repeat_checks": 500, "seed_checks": 1000, "engine_runs": 60, "noise_checks": 60, "concurrent_checks": 15, "binary_checks": 15}
+			return map[string]int64{"repeat_checks": 500, "seed_checks": 1000, "engine_runs": 60, "noise_checks": 60, "concurrent_checks": 15, "binary_checks": 15, "api_sessions": 80, "api_state_checks": 2000, "api_analyses": 200, "api_move_during_analysis": 30, "api_takebacks": 50, "api_reset_to_live_fen": 15, "api_user_forks": 50}
 		},
 		Run: runC18,
 	})
